@@ -57,6 +57,11 @@ SCENARIOS = {
     'active_drop_user': dict(activate=True, callers=[('read', 'm:p1'), ('read', 'm:p2')], drop=True, user=True, user_after=3.5),
     'active_reopen_user': dict(activate=True, reopen=2, callers=[('read', 'm:p1'), ('read', 'm:p2', 1.2), ('read', 'm:p1', 6.0)],
                                drop=True, anytime=True, user=True, user_after=8.0),
+    # requests parked behind one that is answered by an error reply / behind an experimental one, on a
+    # connection kept busy by updates (no idle heartbeat comes to the rescue)
+    'samekey_error_stream': dict(callers=[('read', 'm:p1'), ('read', 'm:p1'), ('read', 'm:p1')], errors=[1, 2], streaming=True),
+    'two_unknown_error_stream': dict(callers=[('foo', 'm:p1'), ('foo', 'm:p1')], streaming=True),
+    'samekey_change_error': dict(callers=[('change', 'm:p2'), ('change', 'm:p2')], errors=[1], updates=2),
     # a request that timed out must not block a later request with the same key
     'timeout_then_same': dict(callers=[('read', 'm:p1'), ('read', 'm:p1', 11.5)], ignore=[1]),
 }
